@@ -36,6 +36,10 @@ pub struct CaseStats {
     pub digest: u64,
     pub binpairs: u64,
     pub subst_alt: u64,
+    #[serde(default)]
+    pub dump_rounds: u64,
+    #[serde(default)]
+    pub dump_rounds_after_event: u64,
 }
 
 impl From<&Stats> for CaseStats {
@@ -65,6 +69,8 @@ impl From<&Stats> for CaseStats {
             digest: s.digest,
             binpairs: s.binpairs,
             subst_alt: s.subst_alt,
+            dump_rounds: s.dump_rounds,
+            dump_rounds_after_event: s.dump_rounds_after_event,
         }
     }
 }
